@@ -1,6 +1,7 @@
 (* C06  Removed sources are gone for good; their tokens die; everything is released once. *)
 From CV Require Import Base Consts Token PostAction Env Loop.
 From CVP Require Import Loop_frames Seq_lemmas Env_lemmas C06_proofs C14_life C14_life2 C06_release C06_handles.
+From CVP Require Import C15_intact.
 Open Scope N_scope.
 
 (* remove(): right afterwards the handle's token no longer resolves to a source *)
@@ -124,3 +125,11 @@ Proof.
   - intros i sl H. vm_compute in H. destruct i as [|i]; [injection H as <-; vm_compute; reflexivity|destruct i; discriminate].
   - vm_compute. reflexivity.
 Qed.
+
+(* a slot is handed out only when it is vacant: the slot an insertion takes is never one that holds a source, and every occupied slot - its
+   token, its generation and its source - is left exactly as it was. A finished removal can therefore not reach a later source through the
+   slot allocator (the vacated slot is found again by a scan of the list itself, there is no second record of vacant slots to go stale). *)
+Theorem C06_insertion_never_takes_an_occupied_slot : forall l i l', vacant_entry l = Some (i, l') ->
+  forall j sl, nth_error l j = Some sl -> s_obj sl <> None -> nth_error l' j = Some sl /\ j <> i.
+Proof. exact vacant_entry_keeps_occupied. Qed.
+Print Assumptions C06_insertion_never_takes_an_occupied_slot.
